@@ -161,7 +161,7 @@ def base_programs(quick):
         if n == "intspell" or (names_c and n not in names_c):
             continue
         progs.append(("decl:" + n, src, "C"))
-    names_cpp = ("class", "ctorinit", "tmpl", "lambda", "trycatch", "rawstr") if quick else None
+    names_cpp = ("class", "ctorinit", "tmpl", "lambda", "trycatch", "rawstr", "convop") if quick else None
     for n, src in cgen.decl_units("CPP"):
         if n in [x for x, _ in cgen.DECLS_C] or n == "intspell" or (names_cpp and n not in names_cpp):
             continue
